@@ -2,6 +2,7 @@
 From Coq Require Import ZArith NArith List Bool String.
 From Falcon.lib Require Import PyStr.
 From Falcon.C09 Require Import Model Spec SpecRfc Proofs ProofsEtag ProofsCookie ProofsForwarded ProofsRoute.
+From Falcon.C09 Require Import DateModel DateSpec ProofsDate.
 Import ListNotations.
 
 (* ---- for invalid input: a lenient reading or a 400-class error, never another exception *)
@@ -146,6 +147,69 @@ Proof.
 Qed.
 Print Assumptions C09_forwarded_uri_valid.
 
+(* ---- HTTP dates (DateModel.v: strftime / strptime / dt_to_http / http_date_to_dt modelled, no oracle) *)
+
+(* date values written by the response API read back to the same values: for ALL valid datetimes *)
+Theorem C09_date_roundtrip : forall d,
+  validb d = true -> http_date_to_dt (strftime_http true d) false = Some d.
+Proof. exact date_roundtrip. Qed.
+Print Assumptions C09_date_roundtrip.
+
+(* resp.last_modified / resp.expires = dt (naive = UTC, or aware in any zone), then a date accessor on
+   the header text: the UTC instant *)
+Theorem C09_date_setter_roundtrip : forall p t,
+  dt_to_http true p = SText t ->
+  exists u, to_utc p = Some u /\ t = strftime_http true u /\
+            (validb u = true -> header_as_datetime (Some t) false = Ok (Some u)).
+Proof. exact setter_roundtrip. Qed.
+Print Assumptions C09_date_setter_roundtrip.
+
+Theorem C09_date_setter_roundtrip_utc : forall f off,
+  validb f = true -> off = None \/ off = Some 0%Z ->
+  exists t, dt_to_http true (mk_pydt f off) = SText t /\ header_as_datetime (Some t) false = Ok (Some f).
+Proof. exact setter_roundtrip_utc. Qed.
+Print Assumptions C09_date_setter_roundtrip_utc.
+
+(* what the setters write is a strict RFC 9110 IMF-fixdate (fixed width, four-digit year, GMT) *)
+Theorem C09_date_written_is_imf_fixdate : forall d,
+  validb d = true -> rfc_imf_fixdate (strftime_http true d) = Some d.
+Proof. exact strftime_is_imf. Qed.
+Print Assumptions C09_date_written_is_imf_fixdate.
+
+(* a strict IMF-fixdate is read exactly (with and without obs_date) *)
+Theorem C09_imf_fixdate_valid : forall s d,
+  rfc_imf_fixdate s = Some d ->
+  header_as_datetime (Some s) false = Ok (Some d) /\ header_as_datetime (Some s) true = Ok (Some d).
+Proof.
+  intros s d H. split; [apply imf_fixdate_acc_valid, H|].
+  unfold header_as_datetime. rewrite (imf_fixdate_valid_obs s d H). reflexivity.
+Qed.
+Print Assumptions C09_imf_fixdate_valid.
+
+(* a value, None, or a 400-class error *)
+Theorem C09_date_acc_no_crash : forall hdr obs k, header_as_datetime hdr obs <> Crash k.
+Proof. exact date_acc_no_crash. Qed.
+Print Assumptions C09_date_acc_no_crash.
+
+Theorem C09_date_invalid_is_400 : forall v obs,
+  http_date_to_dt v obs = None -> header_as_datetime (Some v) obs = Http400.
+Proof. exact date_invalid_is_400. Qed.
+Print Assumptions C09_date_invalid_is_400.
+
+(* the code as found (fixes/C09-dt-to-http-utc-and-year.patch) *)
+Theorem C09_date_roundtrip_refuted_before_fix_year :
+  ConstsC09.strftime_Y_padded = false ->
+  exists d t, validb d = true /\ dt_to_http false (mk_pydt d None) = SText t /\
+              http_date_to_dt t false = None /\ rfc_imf_fixdate t = None.
+Proof. exact roundtrip_refuted_before_fix_year. Qed.
+Print Assumptions C09_date_roundtrip_refuted_before_fix_year.
+
+Theorem C09_date_roundtrip_refuted_before_fix_tz :
+  exists p t u r, dt_to_http false p = SText t /\ to_utc p = Some u /\
+                  http_date_to_dt t false = Some r /\ r <> u.
+Proof. exact roundtrip_refuted_before_fix_tz. Qed.
+Print Assumptions C09_date_roundtrip_refuted_before_fix_tz.
+
 (* ---- repeated access: cached value = fresh value, for every interleaving of reads *)
 Theorem C09_acc_stable : forall e l, fst (reads e l cache0) = map (fresh e) l.
 Proof. exact acc_stable. Qed.
@@ -189,6 +253,24 @@ Example C09_valid_inputs_exist :
   range (Some (lit "bytes=5-1")) = Http400 /\
   access_route true false (Some (lit "for=""192.0.2.43:_obf"", for=198.51.100.17")) None None (lit "10.0.0.9")
     = Ok [lit "192.0.2.43"; lit "198.51.100.17"; lit "10.0.0.9"].
+Proof. vm_compute. repeat split; reflexivity. Qed.
+
+(* dates: the RFC's own example in all three forms, leniencies, the calendar, zones *)
+Example C09_date_examples :
+  rfc_imf_fixdate (lit "Sun, 06 Nov 1994 08:49:37 GMT") = Some (mk_date 1994 11 6 8 49 37) /\
+  strftime_http true (mk_date 1994 11 6 8 49 37) = lit "Sun, 06 Nov 1994 08:49:37 GMT" /\
+  http_date_to_dt (lit "Sunday, 06-Nov-94 08:49:37 GMT") true = Some (mk_date 1994 11 6 8 49 37) /\
+  http_date_to_dt (lit "Sun Nov  6 08:49:37 1994") true = Some (mk_date 1994 11 6 8 49 37) /\
+  http_date_to_dt (lit "Sunday, 06-Nov-94 08:49:37 GMT") false = None /\
+  http_date_to_dt (lit "mon,  6 nov 1994 8:49:7 gmt") false = Some (mk_date 1994 11 6 8 49 7) /\
+  http_date_to_dt (lit "Tue, 29 Feb 1900 00:00:00 GMT") false = None /\
+  http_date_to_dt (lit "Tue, 29 Feb 2000 00:00:00 GMT") false = Some (mk_date 2000 2 29 0 0 0) /\
+  http_date_to_dt (lit "Tue, 15 Nov 1994 23:59:60 GMT") false = None /\
+  weekday (mk_date 1 1 1 0 0 0) = 0%Z /\ weekday (mk_date 9999 12 31 0 0 0) = 4%Z /\
+  to_utc (mk_pydt (mk_date 2024 3 1 0 30 0) (Some 3600%Z)) = Some (mk_date 2024 2 29 23 30 0) /\
+  dt_to_http true (mk_pydt (mk_date 1 1 1 0 0 0) (Some 7200%Z)) = SOverflow /\
+  dt_to_http true (mk_pydt (mk_date 999 12 31 23 0 0) (Some (-3600)%Z)) = SText (lit "Wed, 01 Jan 1000 00:00:00 GMT") /\
+  dt_to_http true (mk_pydt (mk_date 7 5 4 3 2 1) None) = SText (lit "Fri, 04 May 0007 03:02:01 GMT").
 Proof. vm_compute. repeat split; reflexivity. Qed.
 
 (* the valid languages of SpecRfc.v are inhabited by the RFCs' own examples *)
